@@ -378,6 +378,8 @@ def sort_key_of(net, array_type, item):
 					value = hashlib.new('ripemd160', sha3.keccak_256(value).digest()).digest()
 				parts.append(value)
 			return tuple(parts)
+	if isinstance(key_value, list):
+		return tuple(key_value)
 	return key_value
 
 
